@@ -265,6 +265,10 @@ fn judge(prop: &str, s: &Scenario, obs: &Obs, end: &EndKind, cens: (u32, u32, u3
                 }
             } else if s.must_err || expect.is_err() {
                 // fine: an error was required
+            } else if s.mutant && matches!(s.kind, Kind::RL) {
+                // A damaged LZIP file that the forward-reading single-threaded reader accepts under the format's
+                // trailing-garbage rule (or as an empty archive) may be rejected by the MT reader, which locates the
+                // members from the trailers backwards; an error is never the bad outcome C09 names.
             } else {
                 v.push((
                     "spurious-error".into(),
@@ -397,12 +401,28 @@ fn run(cli: &Cli, rep: &Report) {
             rep_arc.max("max.peak_workers", acc.peaks.iter().max().copied().unwrap_or(0) as u64);
             rep_arc.max("max.distinct_outcomes_in_one_scenario", acc.outcomes.len() as u64);
             total.lock().unwrap().merge(&st);
-            outcomes_all.lock().unwrap().insert(
-                sdesc.clone(),
-                json!({"bound": bound, "executions": st.executions, "by_preemptions": st.by_preemptions, "failed": st.failed,
-                       "max_depth": st.max_depth, "distinct_outcomes": acc.outcomes.len(), "distinct_call_patterns": acc.call_patterns.len(),
-                       "out_of_order_execs": acc.out_of_order_execs, "peaks": acc.peaks, "spawned": acc.spawned}),
-            );
+            if scn.mutant {
+                // single-fault mutants: one aggregated evidence entry per family instead of one per mutant
+                let fam = scn.name.split('/').take(2).collect::<Vec<_>>().join("/");
+                let class = match scn.expect.as_ref() {
+                    Ok(b) if b.is_empty() => "st_ok_empty",
+                    Ok(_) => "st_ok",
+                    Err(_) => "st_err",
+                };
+                rep_arc.add_many(&[("mutant_scenarios", 1), ("mutant_executions", st.executions)]);
+                rep_arc.add(&format!("mutants.{fam}.{class}"), 1);
+                rep_arc.add(&format!("mutants.{fam}.executions"), st.executions);
+                if acc.outcomes.len() > 1 {
+                    rep_arc.add(&format!("mutants.{fam}.schedule_dependent_outcome"), 1);
+                }
+            } else {
+                outcomes_all.lock().unwrap().insert(
+                    sdesc.clone(),
+                    json!({"bound": bound, "executions": st.executions, "by_preemptions": st.by_preemptions, "failed": st.failed,
+                           "max_depth": st.max_depth, "distinct_outcomes": acc.outcomes.len(), "distinct_call_patterns": acc.call_patterns.len(),
+                           "out_of_order_execs": acc.out_of_order_execs, "peaks": acc.peaks, "spawned": acc.spawned}),
+                );
+            }
             // non-vacuity per scenario: schedules must actually differ
             if cli.only.is_none() && st.executions <= 1 && !matches!(scn.kind, Kind::Q { stealers: 0, .. }) && *bound > 0 {
                 rep_arc.note(format!("{sdesc}: only {} execution(s) - no scheduling freedom", st.executions));
